@@ -283,9 +283,10 @@ class Point(object):
 
         """
 
-        # If the attribute value is not None, then simply return it.
-        # Otherwise, compute it and return it.
-        if self._value is None:
+        # If the attribute value of a leaf is not None, then simply return it (the PEP overwrites it at each solve).
+        # Otherwise, compute it and return it. The value of a linear combination is recomputed at each call,
+        # as the values of the leaves change when the PEP is solved again.
+        if self._value is None or not self._is_leaf:
             # If leaf, the PEP would have filled the attribute after solving the problem.
             if self._is_leaf:
                 raise ValueError("The PEP must be solved to evaluate Points!")
